@@ -116,7 +116,22 @@ func (g *gen) join(realm int, allFeatures bool) int {
 	if g.chance(0.6) {
 		hello.D = append(hello.D, KV{"dept", Str(g.pick(authroles))})
 	}
-	g.sc.Ops = append(g.sc.Ops, Op{Kind: "join", Realm: realm, Sess: s, Local: local, Hello: hello})
+	op := Op{Kind: "join", Realm: realm, Sess: s, Local: local, Hello: hello}
+	if g.chance(0.25) {
+		// transport details as a websocket / rawsocket server would supply them
+		td := Dict(KV{"peer", Str("10.0.0.7:4242")})
+		switch g.r.IntN(4) {
+		case 0:
+			td.D = append(td.D, KV{"auth", Dict(KV{"cookie", Str("secret-cookie")}, KV{"client_cert", Str("CN=x")})})
+		case 1:
+			td = Dict(KV{"auth", Dict(KV{"token", Str("t0k3n")})})
+		case 2:
+			td.D = append(td.D, KV{"auth", Str("not-a-dict")})
+		}
+		op.Transport = td
+		g.tag("transport-details")
+	}
+	g.sc.Ops = append(g.sc.Ops, op)
 	g.alive = append(g.alive, s)
 	g.realm[s] = realm
 	g.local[s] = local
@@ -780,6 +795,37 @@ func (g *gen) tplShared() {
 	g.tag("shared-3-callees-churn")
 }
 
+// tplDiscloseMixed: several non-local subscribers with different
+// publisher_identification on ONE subscription, a publisher asking for
+// disclosure (details must depend on the recipient only).
+func (g *gen) tplDiscloseMixed() {
+	realm := 0
+	var subs []int
+	for i := 0; i < 3; i++ {
+		s := g.next
+		g.next++
+		f := map[string]bool{"publisher_identification": i%2 == 0}
+		roles := Dict(KV{"subscriber", feat(f)}, KV{"publisher", feat(map[string]bool{})}, KV{"callee", feat(map[string]bool{})}, KV{"caller", feat(map[string]bool{})})
+		g.feats[s] = map[string]bool{}
+		g.sc.Ops = append(g.sc.Ops, Op{Kind: "join", Realm: realm, Sess: s, Local: i == 2 && g.chance(0.5), Hello: Dict(KV{"roles", roles})})
+		g.alive = append(g.alive, s)
+		g.realm[s] = realm
+		subs = append(subs, s)
+	}
+	topic := g.pick([]string{"dm.a", "a.b"})
+	for _, s := range subs {
+		req := g.nextReq(s)
+		g.subs = append(g.subs, subRec{s, req})
+		g.msg(s, &Msg{Kind: "sub", Req: req, URI: topic})
+	}
+	pub := g.alive[g.r.IntN(len(g.alive))]
+	for i := 0; i < 2; i++ {
+		g.pubs++
+		g.msg(pub, &Msg{Kind: "pub", Req: g.nextReq(pub), Opts: Dict(KV{"disclose_me", Bool(true)}, KV{"exclude_me", Bool(false)}), URI: topic, Args: List(Int('l', int64(g.pubs))), Kw: Dict()})
+	}
+	g.tag("disclose-mixed-remote-subscribers")
+}
+
 // tplDuplicateAnswers: a callee answers the same invocation twice (final
 // YIELD then another YIELD or ERROR), also while the caller is still sending
 // chunks of a progressive call.
@@ -943,6 +989,9 @@ func Generate(profile string, seed uint64, idx int, maxOps, maxSess int) *Scenar
 			g.opMeta()
 		default:
 			g.opHistoryQuery(histSubs)
+		}
+		if (base == "pubsub" || base == "mixed") && realms == 1 && g.chance(0.012) && g.next < 30 {
+			g.tplDiscloseMixed()
 		}
 		if (base == "rpc" || base == "lifecycle" || base == "mixed") && g.chance(0.02) {
 			g.tplShared()
